@@ -1462,10 +1462,21 @@ impl ASN1Value {
                     .iter()
                     .any(|enumeral| &enumeral.name == identifier)
                 {
-                    Ok(Some(ASN1Value::EnumeratedValue {
+                    let value = ASN1Value::EnumeratedValue {
                         enumerated: e.identifier.clone(),
                         enumerable: identifier.clone(),
-                    }))
+                    };
+                    // The last supertype is the ENUMERATED type itself; the type references
+                    // that lead to it are delegate types that wrap the enumeral
+                    supertypes.pop();
+                    if supertypes.is_empty() {
+                        Ok(Some(value))
+                    } else {
+                        Ok(Some(ASN1Value::LinkedNestedValue {
+                            supertypes,
+                            value: Box::new(value),
+                        }))
+                    }
                 } else {
                     Ok(None)
                 }
